@@ -70,6 +70,7 @@ class In:
         self.ex = ex
         # nodes already decided on this path print resolved, undecided ones as one atom (same on input and output side)
         self.P = synprint.Printer(resolve=self.resolve_if_decided)
+        self.P.known = lambda term: ex.notes.get('tk_known', {}).get(str(term), term)
 
     def resolve_if_decided(self, s):
         while isinstance(s, Sym) and (s.key in self.ex.decisions or s.n == 1 or self.ex.fixed_for(s) is not None):
@@ -1921,3 +1922,77 @@ def ref_parse_lazy(front, LP, target):
             return ('err', 'unexpected token')
         return ('ok', res)
     raise ValueError(target)
+
+
+# ---------------------------------------------------------------------------
+# front end: items (C08 classification, C02 verbatim re-emission incl. what Input::parse consumes before dispatching)
+# ---------------------------------------------------------------------------
+
+def spec_front_item(ex, what, cells, parsed, out_value):
+    from . import front
+    O = Obligations()
+    I = In(ex)
+    if what in ('mod', 'impl'):
+        ref = front.ref_items(ex, cells, pub_only=(what == 'mod'))
+        if ref[0] == 'unspecified':
+            return O
+        if ref[0] == 'err':
+            O.add('C15', 'malformed-body-is-rejected-with-a-diagnostic', parsed.variant == 'Err', f'reference: {ref[1]}; the macro accepted')
+            return O
+        O.add('C08', 'well-formed-body-is-accepted', parsed.variant == 'Ok',
+              f'reference classification succeeded but the macro rejected: `{parsed.fields[0].fields[1] if parsed.variant == "Err" else ""}`')
+        if parsed.variant != 'Ok':
+            return O
+        items = ref[1]
+        want_fns = [nm for k, nm, a, b in items if k == 'fn']
+        inp = parsed.fields[0].fields[0]
+        got = []
+        for it in inp.f('items').items:
+            if it.variant in ('PubFn', 'Fn'):
+                got.append(it.fields[0].fields[0].f('fn_sig').f('ident').name)
+        O.add('C08', 'methods-are-exactly-the-visible-functions-in-source-order', got == want_fns, f'classified {got}, reference {want_fns}')
+        O.add('C08', 'item-count', len(inp.f('items').items) == len(items), f'{len(inp.f("items").items)} vs {len(items)}')
+        if out_value.variant != 'Ok':
+            return O   # back-end rejection (e.g. missing deps): judged by the back-end slices
+        toks = I.P.flat(out_value.fields[0].toks)
+        # C02: the body of the emitted module / inherent impl starts with the input tokens, verbatim
+        try:
+            top = rsview.parse_items(toks)
+        except Exception as e:
+            O.add('C15', 'generated-items-parse', False, f'{type(e).__name__}: {e}')
+            return O
+        body = top[0].body if top else []
+        n_in = sum(b - a for _, _, a, b in items)
+        src = []
+        for i in range(n_in):
+            t = cells[i]
+            if isinstance(t, tuple):
+                src.append(front.view_tok(t))
+            else:
+                src += front.tk_flat(t, I.resolve_if_decided, I.P.known) if isinstance(t, Obj) else [('ATOM', t.key, 'input')]
+        O.add('C02', 'body-re-emitted-token-for-token', toks_eq(body[:len(src)], src), f'`{show(body[:len(src)], 240)}` vs `{show(src, 240)}`')
+        if what == 'mod' and len(top) >= 1:
+            tr = [x for x in rsview.parse_items(body[len(src):]) if x.kind == 'trait']
+            if tr:
+                mnames = [m.name[1] for m in tr[0].items if m.kind == 'fn']
+                O.add('C08', 'trait-methods-are-the-classified-functions', mnames == want_fns, f'{mnames} vs {want_fns}')
+        return O
+    # a single item: whatever Input::parse consumes before dispatching must be re-emitted (C02 / C03)
+    if parsed.variant != 'Ok' or out_value.variant != 'Ok':
+        return O
+    inp = parsed.fields[0]
+    if inp.variant != 'Fn':
+        return O
+    # precondition: a legal fn item `attrs* vis? quals fn IDENT (..) [-> T] { .. }` and nothing after it
+    ref = front.ref_items(ex, cells, pub_only=False)
+    if ref[0] != 'ok' or len(ref[1]) != 1 or ref[1][0][0] != 'fn':
+        return O
+    toks = I.P.flat(out_value.fields[0].toks)
+    src = []
+    for t in cells:
+        if isinstance(t, Sym) or front.tk_is_end(t):
+            break
+        src += [front.view_tok(t)] if isinstance(t, tuple) else front.tk_flat(t, I.resolve_if_decided, I.P.known)
+    O.add('C02', 'fn-item-re-emitted-token-for-token', toks_eq(toks[:len(src)], src), f'`{show(toks[:len(src)], 240)}` vs `{show(src, 240)}`',
+          cls='leading-unsafe-of-a-single-fn' if any(t[0] == 'I' and t[1] == 'unsafe' for t in src[:6]) and not any(t[0] == 'I' and t[1] == 'unsafe' for t in toks[:len(src)]) else '')
+    return O
